@@ -121,6 +121,92 @@ def jtokens(v, nums):
     return out
 
 
+XML_TOKEN = re.compile(rb"<\?xml[^>]*\?>|</([^\s>]+)>|<([^\s/>!?]+)((?:\s+[^\s=>/]+=\"[^\"<]*\")*)\s*(/?)>|([^<]+)")
+XML_ATTR = re.compile(rb"([^\s=>/]+)=\"([^\"<]*)\"")
+XML_REF = re.compile(r"&(#x[0-9A-Fa-f]+|#[0-9]+|amp|lt|gt|quot|apos);")
+
+
+def xml_unescape(b):
+    def ref(m):
+        r = m.group(1)
+        if r.startswith("#x"):
+            return chr(int(r[2:], 16))
+        if r.startswith("#"):
+            return chr(int(r[1:]))
+        return {"amp": "&", "lt": "<", "gt": ">", "quot": '"', "apos": "'"}[r]
+    t = b.decode("utf-8")
+    if "&" in XML_REF.sub("", t):
+        raise ValueError("stray '&' in XML text")
+    return XML_REF.sub(ref, t)
+
+
+def xml_leaves(doc):
+    """Independent reader for the documents the CLI prints (written from the XML grammar, not from the converter):
+    every leaf as (tuple of keys from the root, text or None for an empty element); raises on ill-nested input."""
+    stack, leaves, text, had_child = [], [], [None], [False]
+    pos = 0
+    for m in XML_TOKEN.finditer(doc):
+        if m.start() != pos:
+            raise ValueError(f"unreadable XML at byte {pos}")
+        pos = m.end()
+        if m.group(1) is not None:  # end tag
+            name, key = stack.pop()
+            if name != m.group(1):
+                raise ValueError(f"</{m.group(1)!r}> closes <{name!r}>")
+            t, hc = text.pop(), had_child.pop()
+            if not hc:
+                leaves.append((tuple(k for _, k in stack[1:]) + (key,), t if t is not None else ""))
+            elif t is not None and t.strip():
+                raise ValueError("mixed content")
+        elif m.group(2) is not None:  # start or empty tag
+            attrs = dict((a.group(1), xml_unescape(a.group(2))) for a in XML_ATTR.finditer(m.group(3) or b""))
+            name = m.group(2)
+            key = attrs[b"key"] if (name == b"entry" and b"key" in attrs) else name.decode("utf-8")
+            if had_child:
+                had_child[-1] = True
+            if m.group(4):
+                leaves.append((tuple(k for _, k in stack[1:]) + (key,), None))
+            else:
+                stack.append((name, key)); text.append(None); had_child.append(False)
+        elif m.group(5) is not None:
+            if not stack:
+                if m.group(5).strip():
+                    raise ValueError("text outside the root")
+            else:
+                text[-1] = (text[-1] or "") + xml_unescape(m.group(5))
+    if pos != len(doc) or stack:
+        raise ValueError("document ends inside an element")
+    return leaves
+
+
+def json_leaves(v, nums, path=(), key=None):
+    """the leaves a faithful XML rendering of the JSON value must have: object members under their key, array items
+    under the array's key (`item` when it has none), null as an empty element, NUL shown as U+FFFD"""
+    here = path + ((key,) if key is not None else ())
+    if isinstance(v, dict):
+        out = []
+        for k in v:
+            out += json_leaves(v[k], nums, here, k)
+        if not v and key is not None:
+            out.append((here, ""))
+        return out
+    if isinstance(v, list):
+        out = []
+        for x in v:
+            out += json_leaves(x, nums, path, key if key is not None else "item")
+        return out
+    if key is None:
+        return []
+    if v is None:
+        return [(here, None)]
+    if v is True or v is False:
+        return [(here, "true" if v else "false")]
+    if isinstance(v, (int, float)):
+        return [(here, nums.get(num_key(v), repr(v).encode()).decode())]
+    return [(here, v.replace("\0", "\ufffd"))]
+
+
+
 CHILD = re.compile(rb"<[^/!?][^>]*/>|<([^/!?\s>]+)[^>]*>[^<]*</\1>")
 
 
@@ -289,6 +375,17 @@ def run(rep, tier, seed, replay=None):
                             # structure and member order from the CLI's own JSON document, number texts as Value prints them
                             xml_cases.append(" ".join([xid, "xml-of"] + jtokens(json.loads(json_docs[mode]), nums)))
                             xml_meta[xid] = (out.rstrip(b"\n"), case_desc)
+                            # faithfulness, independently of the model: the leaves read back from the XML document are
+                            # the leaves of the JSON document (which was compared with the library's response above)
+                            rep.count("xml-read-back")
+                            want_leaves = sorted(json_leaves(json.loads(json_docs[mode]), nums, (), None), key=repr)
+                            try:
+                                got_leaves = sorted(xml_leaves(out.strip()), key=repr)
+                                if got_leaves != want_leaves:
+                                    diff = [x for x in got_leaves if x not in want_leaves][:2] + [x for x in want_leaves if x not in got_leaves][:2]
+                                    rep.oracle_failures.append((f"cli-xml-unfaithful:{mode}", f"values read back from the XML differ from the JSON document: {diff!r}"[:400], case_desc, ""))
+                            except (ValueError, KeyError, IndexError, UnicodeDecodeError) as e:
+                                rep.oracle_failures.append(("cli-xml-not-wellformed", f"reader: {e}; {out[:160]!r}", case_desc, ""))
                 except Exception as e:  # a document that cannot even be read back
                     rep.oracle_failures.append((f"cli-malformed:{fmt}", f"{type(e).__name__}: {e}; stdout {out[:120]!r}", case_desc, ""))
     model = vlib.run_model(xml_cases)
